@@ -1,6 +1,8 @@
 (* chartcfg_main.ml: evaluates the extracted Model/ChartCfg and Model/ConfigGen
    on the observations of harness vh_chartcfg (C17). *)
 
+let n_render_valid = ref 0
+let n_render_multi = ref 0
 let show_b b = String.escaped (string_of_bytes b)
 let key_of_index i = List.nth all_keys i
 
@@ -165,6 +167,8 @@ let handle kind c =
     (* property: valid records in a valid layout come back unchanged (real parser) *)
     let valid = List.for_all (fun (r, s) -> valid_record pf rf r && style_ok r s) items in
     if valid then begin
+      incr n_render_valid;
+      if List.exists (fun (r, s) -> s.rs_multi && r.c_counter <> [] && List.mem (n_of_int 123) r.c_counter) items then incr n_render_multi;
       let rs = List.map fst items in
       let observed = (match impl with
           | IOk got -> POk got
@@ -261,4 +265,7 @@ let handle kind c =
      | None -> ())
   | k -> diff "unknown-case-kind" ~model:k ~impl:"-"
 
-let () = run_file Sys.argv.(1) handle
+let () =
+  run_file Sys.argv.(1) handle;
+  Printf.printf "INFO render cases with valid records and layout (round-trip oracle evaluated): %d, of which with a multi-line bucket list: %d\n"
+    !n_render_valid !n_render_multi
